@@ -66,8 +66,9 @@ type Sym struct {
 type SymSeq struct {
 	Name  string
 	Len   Int
-	IsStr bool
-	Nil   bool // known-nil slice
+	IsStr  bool
+	Nil    bool // known-nil slice
+	NonNil bool // known non-nil slice
 }
 
 type Struct struct{ F []Val }
